@@ -14,9 +14,11 @@ func TestProp_PipeMux(t *testing.T)   { PartMux.Run(t) }
 func TestProp_PipeMQ(t *testing.T)    { PartMQ.Run(t) }
 func TestProp_SyncQ(t *testing.T)     { PartSync.Run(t) }
 func TestProp_PriQ(t *testing.T)      { PartPri.Run(t) }
+func TestProp_Deep(t *testing.T)      { PartDeep.Run(t) }
 
 func TestReplay(t *testing.T) {
 	for _, p := range []*vkit.Part[Case]{PartQ, PartAsync, PartMux, PartMQ, PartSync, PartPri} {
 		p.Replay(t, 1)
 	}
+	PartDeep.Replay(t, 1)
 }
